@@ -59,5 +59,65 @@ fn meta_decode_injective() {
     kani::cover!(true, "reachable");
 }
 
+/// Meta::write: one 4096-byte write at offset 0 carrying encode_to(meta), then fsync, then Ok.
+/// Any failing operation ==> Err and nothing issued after it.
+#[kani::proof]
+#[kani::unwind(3)]
+#[kani::stub(std::fs::File::sync_all, crate::io::verif_kani::stub_sync_all)]
+#[kani::stub(<std::fs::File as std::os::unix::fs::FileExt>::write_at, stub_write_at_meta)]
+#[kani::stub(crate::io::page_pool::PagePool::alloc, crate::io::page_pool::verif_kani::stub_alloc)]
+#[kani::stub(crate::io::page_pool::PagePool::dealloc, crate::io::page_pool::verif_kani::stub_dealloc)]
+fn meta_write_effects() {
+    use crate::io::verif_kani as gh;
+    let f = gh::kani_file(5);
+    let pool = crate::io::page_pool::verif_kani::kani_page_pool();
+    let m = any_meta();
+    unsafe {
+        EXPECT = Some(m.clone());
+    }
+    let r = Meta::write(&pool, &f, &m);
+    let k = gh::log_len();
+    if r.is_ok() {
+        assert!(k == 2);
+        assert!(gh::log_at(0) == gh::OP_WRITE_AT);
+        // offset 0, length 4096
+        assert!(gh::log_arg(0) == 4096);
+        assert!(gh::log_at(1) == gh::OP_FSYNC);
+        assert!(unsafe { PAYLOAD_OK });
+    } else {
+        assert!(gh::failed_at() == k - 1);
+    }
+    assert!((gh::failed_at() != usize::MAX) == r.is_err());
+    kani::cover!(r.is_ok(), "success reachable");
+    kani::cover!(r.is_err() && k == 2, "fsync failure reachable");
+    std::mem::forget(pool);
+}
+
+static mut EXPECT: Option<Meta> = None;
+static mut PAYLOAD_OK: bool = false;
+
+fn stub_write_at_meta(_f: &File, buf: &[u8], offset: u64) -> std::io::Result<usize> {
+    use crate::io::verif_kani as gh;
+    // the page written is the encoding of the meta that was passed in
+    if buf.len() >= META_SIZE {
+        let d = Meta::decode(&buf[..META_SIZE]);
+        let e = unsafe { EXPECT.as_ref().unwrap() };
+        unsafe {
+            PAYLOAD_OK = d.sync_seqn == e.sync_seqn
+                && d.magic == e.magic
+                && d.version == e.version
+                && d.ln_freelist_pn == e.ln_freelist_pn
+                && d.ln_bump == e.ln_bump
+                && d.bbn_freelist_pn == e.bbn_freelist_pn
+                && d.bbn_bump == e.bbn_bump
+                && d.bitbox_num_pages == e.bitbox_num_pages
+                && d.bitbox_seed == e.bitbox_seed
+                && d.rollback_start_live == e.rollback_start_live
+                && d.rollback_end_live == e.rollback_end_live;
+        }
+    }
+    gh::fallible(gh::OP_WRITE_AT, (offset << 32) | buf.len() as u64).map(|_| buf.len())
+}
+
 #[cfg(test)]
 include!("/verif/.build/playback/store_meta.inc");
